@@ -23,6 +23,9 @@ type bcase struct {
 	Align   int    `json:"align"`   // 0..7, or -1: the slice is a whole allocation
 	Pattern uint64 `json:"pattern"` // bit i set = byte i non-zero
 	Guard   byte   `json:"guard"`
+	// Spare: the slice keeps the capacity of the buffer behind it (guard
+	// bytes) instead of being clipped to its length.
+	Spare bool `json:"spare_capacity,omitempty"`
 }
 
 func fill(buf []byte, p uint64) {
@@ -51,6 +54,9 @@ func checkBits(c bcase) *mc.Failure {
 			}
 			// make() returns 8-aligned storage for these sizes; offset 16+align.
 			data = big[16+c.Align : 16+c.Align+c.Len : 16+c.Align+c.Len]
+			if c.Spare {
+				data = big[16+c.Align : 16+c.Align+c.Len]
+			}
 		}
 		fill(data, c.Pattern)
 		lead, trail := 0, 0
@@ -299,11 +305,16 @@ func main() {
 					var n int64
 					for p := uint64(0); p < 1<<uint(j.l); p++ {
 						for _, g := range []byte{0x00, 0xFF} {
-							c := bcase{Len: j.l, Align: j.a, Pattern: p, Guard: g}
-							if f := checkBits(c); f != nil {
-								r.Violation(mc.Case{Harness: "mbits", Trace: mc.J(c), Msg: f.Msg})
+							for _, spare := range []bool{false, true} {
+								if spare && j.l > 14 && p&(p-1) != 0 && p != 1<<uint(j.l)-1 {
+									continue // spare capacity: all lengths up to 14; beyond, the patterns with at most one or with all bytes set
+								}
+								c := bcase{Len: j.l, Align: j.a, Pattern: p, Guard: g, Spare: spare}
+								if f := checkBits(c); f != nil {
+									r.Violation(mc.Case{Harness: "mbits", Trace: mc.J(c), Msg: f.Msg})
+								}
+								n++
 							}
-							n++
 						}
 					}
 					atomic.AddInt64(&evals, n)
@@ -421,6 +432,28 @@ func main() {
 			},
 		},
 		mc.Harness{
+			Name:    "natural-shared",
+			Explore: func(r *mc.Run) {},
+			Replay: func(c mc.Case) *mc.Failure {
+				var t ncase
+				if err := mc.Unmarshal(c.Trace, &t); err != nil {
+					return mc.Failf(-1, "bad trace: %v", err)
+				}
+				// rebuild the sharing: the shorter argument is a prefix slice of the longer
+				a, b := t.A, t.B
+				if strings.HasPrefix(b, a) {
+					a = b[:len(a)]
+				} else if strings.HasPrefix(a, b) {
+					b = a[:len(b)]
+				}
+				got, want := mstr.CompareNatural(a, b), mstr.CompareNatural(strings.Clone(t.A), strings.Clone(t.B))
+				if got != want {
+					return mc.Failf(0, "CompareNatural(%q,%q) = %d when the arguments are slices of one string, %d when they are separate copies", t.A, t.B, got, want)
+				}
+				return nil
+			},
+		},
+		mc.Harness{
 			Name: "natural",
 			Explore: func(r *mc.Run) {
 				alpha := mc.Pick(r, "019/:", "019/:a")
@@ -445,6 +478,24 @@ func main() {
 					rel[i] = row
 					atomic.AddInt64(&pairs, int64(n))
 				})
+				// arguments that share storage: a string against each of its own prefixes
+				// must compare as independent copies of the two do
+				var shared int64
+				for _, s := range strs {
+					for k := 0; k <= len(s); k++ {
+						a, b := s[:k], s
+						for _, pr := range [][2]string{{a, b}, {b, a}} {
+							got := mstr.CompareNatural(pr[0], pr[1])
+							want := mstr.CompareNatural(strings.Clone(pr[0]), strings.Clone(pr[1]))
+							shared++
+							if got != want {
+								c := ncase{A: pr[0], B: pr[1]}
+								r.Violation(mc.Case{Harness: "natural-shared", Trace: mc.J(c), Msg: fmt.Sprintf("CompareNatural(%q,%q) = %d when the arguments are slices of one string, %d when they are separate copies", pr[0], pr[1], got, want)})
+							}
+						}
+					}
+				}
+				r.Count("pairs_sharing_storage", shared)
 				// Total preorder <=> the relation is induced by rank(s) = number of
 				// strings strictly below s. Equivalent to checking transitivity on
 				// the whole cube, in O(n^2).
